@@ -206,3 +206,48 @@ Theorem bus_add_refused : forall w,
   accepted w WBusAdd = false.
 Proof. exact bus_add_refused_lemma. Qed.
 Print Assumptions bus_add_refused.
+
+(* which error InsertOperation returns: the code checks from, then length, then opIndex *)
+Theorem insert_error_kind : forall ops k from len idx,
+  (insert_operation ops k from len idx = Err ErrFrom <-> ~ (0 <= from <= 31))
+  /\ (insert_operation ops k from len idx = Err ErrLength <-> 0 <= from <= 31 /\ ~ (0 <= len <= 32 - from))
+  /\ (insert_operation ops k from len idx = Err ErrOpIndex
+      <-> 0 <= from <= 31 /\ 0 <= len <= 32 - from /\ ~ (0 <= idx <= Z.of_nat (length ops))).
+Proof. exact insert_error_kind_lemma. Qed.
+Print Assumptions insert_error_kind.
+
+(* reachable worlds (from init_world by wstep, i.e. by what the library accepts) satisfy an
+   invariant; the statements below are about such worlds, not about arbitrary records *)
+Theorem wreach_inv : forall w, wreach w ->
+  (w_cur w < length (w_builders w))%nat
+  /\ in32 (w_id w) /\ in32 (w_prio w) /\ in32 (w_static w) /\ in32 (w_node_id w)
+  /\ (w_has_static w = true -> w_static w = w_id w)
+  /\ (w_has_static w = false -> w_static w = 0)
+  /\ (w_big w = true -> w_on_bus w = false).
+Proof. exact wreach_inv_lemma. Qed.
+Print Assumptions wreach_inv.
+
+Theorem reach_can_id_in32 : forall w, wreach w -> in32 (world_can_id w).
+Proof. exact reach_can_id_in32_lemma. Qed.
+Print Assumptions reach_can_id_in32.
+
+(* a static CAN-ID is also the message id *)
+Theorem reach_static_is_id : forall w, wreach w -> w_has_static w = true -> world_can_id w = w_id w.
+Proof. exact reach_static_is_id_lemma. Qed.
+Print Assumptions reach_static_is_id.
+
+(* the bus always has a builder of the pool (also after SetCANIDBuilder(nil), which installs a new
+   default builder): the default of `nth` in world_cases is never used *)
+Theorem reach_builder_defined : forall w, wreach w ->
+  exists ops, nth_error (w_builders w) (w_cur w) = Some ops
+    /\ (w_has_static w = false -> w_attached w = true -> w_on_bus w = true ->
+        world_can_id w = calculate ops (w_prio w) (w_id w) (w_node_id w)).
+Proof. exact reach_builder_defined_lemma. Qed.
+Print Assumptions reach_builder_defined.
+
+(* Bus.SetCANIDBuilder(nil): the CAN-ID of an attached message becomes the default builder's *)
+Theorem world_nil_builder : forall w,
+  w_has_static w = false -> w_attached w = true -> w_on_bus w = true ->
+  world_can_id (wstep w WSetBuilderNil) = calculate default_ops (w_prio w) (w_id w) (w_node_id w).
+Proof. exact world_nil_builder_lemma. Qed.
+Print Assumptions world_nil_builder.
